@@ -6,7 +6,9 @@ Part 1 (seqx, histories): breadth-first search over histories of
 on the REAL xonsh.codecache.run_script_with_cache / run_code_with_cache with a real Execer, a real
 source file and a real $XONSH_DATA_DIR.  Switches = every combination of Execer(scriptcache, cacheall)
 x $XONSH_CACHE_SCRIPTS x $XONSH_CACHE_EVERYTHING.  Time is a logical clock written with os.utime
-(edit = +2 ticks, a cache file written by a run gets the current tick).
+(edit = +2 ticks, a cache file written by a run gets the current tick).  rewrite-header keeps the
+entry's mtime and also swaps the payload for a loadable code object printing a tell-tale marker, so
+that "never executed" is observable (and no real foreign bytecode is ever at risk of being run).
 Oracle on every run: (stdout, recorded alias calls, user exception, new namespace entries, escaping
 exception) equals the UNCACHED run (all switches off, empty data dir, fresh namespace) of the source
 as it is on disk at that moment; a foreign-version entry is never executed, never fatal and - where
